@@ -129,6 +129,12 @@ structure Config where
   safe : Bool           -- safe_mode
   keep : Bool           -- keep_unsynchronized
   c2fixed : Bool := false  -- source variant of apply_corrector2 (see `corrector2Ops`)
+  /-- source variant of the `N_var_config` block of `reb_integrator_whfast_part2`: with
+      keep_unsynchronized the block restores the cached `p_jh`, which as found throws away the
+      second half of the variational centre-of-mass drift (finding
+      C09:whfast-var-keep-com-drift-lost); the repaired source redoes it on the restored
+      coordinates.  Detected by rv/c09.py. -/
+  vfix : Bool := false
   deriving DecidableEq, Repr, Inhabited
 
 /-- internal flags -/
@@ -303,7 +309,8 @@ def vPart2Ops (c : Config) (f : Flags) : List Prim × Flags :=
   -- the N_var_config block (whfast.c:1197-1268): synchronize with keep_unsynchronized switched off
   let (pv, f3) := vSyncOps { c with keep := false } f2
   let blk := (if c.keep then [Prim.savePJ] else []) ++ pv ++
-    [.varComDrift (.frac 1 2), .varToInertialPosvel] ++ (if c.keep then [Prim.restorePJ] else [])
+    [.varComDrift (.frac 1 2), .varToInertialPosvel] ++
+    (if c.keep then Prim.restorePJ :: (if c.vfix then [.varComDrift (.frac 1 2)] else []) else [])
   ([.interaction (.frac 1 1), .jump (.frac 1 2)] ++ ps ++ [.advT (.frac 1 2)] ++ blk,
    if c.keep then { f3 with isSync := false } else f3)
 
